@@ -49,6 +49,8 @@ def build(spec):
             return torch.arange(0, spec["n"], step=spec["step"], dtype=torch.float32)
         if t == "tuple":
             return tuple(build(x) for x in spec["items"])
+        if t == "labels":
+            return build_labels(spec["labels"])
         if t == "lf":
             labels = build_labels(spec["labels"])
             return labels[spec["index"]]
@@ -246,14 +248,14 @@ def build_labels(spec, real_sio=None):
     n_nodes = spec["n_nodes"]
     H, W, C = spec["H"], spec["W"], spec["C"]
     if real_sio is None:
-        video = DVideo((len(spec["frames"]), H, W, C))
+        videos = [DVideo((len(spec["frames"]), H, W, C)) for _ in range(spec.get("n_videos", 1))]
         frames = []
         for fi, fr in enumerate(spec["frames"]):
             g = np.random.RandomState(spec["img_seed"] + fi)
             img = g.randint(0, 256, size=(H, W, C)).astype(np.uint8)
             insts = [DInst(i["pts"], i["pred"]) for i in fr["insts"]]
-            frames.append(DFrame(video, fi, insts, img))
-        return DLabels(frames, [video], [DSkeleton(n_nodes, spec["edges"])])
+            frames.append(DFrame(videos[fr.get("video", 0)], fr.get("frame_idx", fi), insts, img))
+        return DLabels(frames, videos, [DSkeleton(n_nodes, spec["edges"])])
     sio, asset = real_sio
     sk = sio.Skeleton(nodes=[f"n{k}" for k in range(n_nodes)],
                       edges=[(f"n{a}", f"n{b}") for a, b in spec["edges"]])
@@ -320,8 +322,12 @@ def gen_label_set(rng, single=False):
     n_frames = rng.randint(1, 4)
     anchor = rng.choice([None] + list(range(n_nodes)))
     frames = []
+    n_videos = 1 if (single or rng.random() < 0.7) else 2
     for _ in range(n_frames):
         n_user = 1 if single else rng.randint(1, 3)
+        pred_only = (not single) and rng.random() < 0.12      # a frame without any user instance
+        if pred_only:
+            n_user = 0
         insts = []
         for _ in range(n_user):
             r = rng.random()
@@ -334,16 +340,17 @@ def gen_label_set(rng, single=False):
             else:
                 force = None
             insts.append({"pts": gen_instance(rng, n_nodes, W, H, 0.25, force), "pred": False})
-        if not single and rng.random() < 0.4:        # predicted instances next to user ones
+        if pred_only or (not single and rng.random() < 0.4):      # predicted instances next to user ones
             for _ in range(rng.randint(1, 2)):
                 insts.insert(rng.randint(0, len(insts)),
-                             {"pts": gen_instance(rng, n_nodes, W, H, 0.2, None), "pred": True})
-        frames.append({"insts": insts})
+                             {"pts": gen_instance(rng, n_nodes, W, H, 0.2, "empty" if rng.random() < 0.1 else None),
+                              "pred": True})
+        frames.append({"insts": insts, "video": rng.randrange(n_videos), "frame_idx": rng.randint(0, 40)})
     edges = [[k, k + 1] for k in range(n_nodes - 1)]
     if n_nodes >= 3 and rng.random() < 0.5:
         edges = [[0, k] for k in range(1, n_nodes)]
     return {"n_nodes": n_nodes, "H": H, "W": W, "C": C, "frames": frames, "edges": edges,
-            "img_seed": rng.randrange(1 << 30), "anchor": anchor}
+            "img_seed": rng.randrange(1 << 30), "anchor": anchor, "n_videos": n_videos}
 
 
 def gen_dataset_cfg(rng, ls):
